@@ -92,3 +92,62 @@ def selfcheck_truth(lang, text, funcs):
         if not any(val == f["name"] and ty in Name and s <= off < e for off, ty, val in toks):
             problems.append(f"{f['name']}: name is not lexed as one Name token inside the span")
     return problems
+
+
+def scan_text(lang, text):
+    """real lex + scan_file -> list of Measurement objects"""
+    from codelimit.common.lexer_utils import lex
+    from codelimit.common.Scanner import scan_file
+    from codelimit.languages import Languages
+
+    return scan_file(lex(lexer(lang), text, False), Languages.by_name[lang])
+
+
+def wellformed(lang, text, ms):
+    """C05 oracle. ms: list of (name, (sl, sc), (el, ec), value). returns list of (kind, sig, detail).
+    Positions are checked against raw Pygments offsets with independent arithmetic."""
+    from pygments.token import Name
+
+    out = []
+    lines = text.split("\n")
+    starts = line_starts(text)
+    toks = raw_code_tokens(lang, text)
+    tok_starts = {off for off, _, _ in toks}
+    tok_ends = {off + len(val) for off, _, val in toks}
+    prev_start = None
+    for name, (sl, sc), (el, ec), value in ms:
+        sig = {"language": lang}
+        if not (isinstance(sl, int) and isinstance(sc, int) and isinstance(el, int) and isinstance(ec, int) and isinstance(value, int)):
+            out.append(("measurement-field-not-int", sig, f"{name}: {(sl, sc, el, ec, value)}"))
+            continue
+        if not (1 <= sl <= el <= len(lines)):
+            out.append(("line-out-of-range", sig, f"{name}: lines {sl}..{el} in a text of {len(lines)} lines"))
+            continue
+        if not (1 <= sc <= max(1, len(lines[sl - 1]))):
+            out.append(("start-column-out-of-range", sig, f"{name}: start column {sc} on a line of length {len(lines[sl - 1])}"))
+            continue
+        if not (1 <= ec <= len(lines[el - 1]) + 1):
+            out.append(("end-position-invalid", sig, f"{name}: end column {ec} on line {el} of length {len(lines[el - 1])}"))
+            continue
+        s_off = starts[sl - 1] + sc - 1
+        e_off = starts[el - 1] + ec - 1
+        if s_off not in tok_starts:
+            out.append(("start-not-at-code-token", sig, f"{name}: start {(sl, sc)}"))
+        if e_off not in tok_ends:
+            out.append(("end-position-invalid", sig, f"{name}: end {(el, ec)} is not just past a code token"))
+        if not s_off < e_off:
+            out.append(("empty-or-inverted-span", sig, f"{name}: {(sl, sc)}..{(el, ec)}"))
+            continue
+        if not any(val == name and ty in Name and s_off <= off < e_off for off, ty, val in toks):
+            out.append(("name-not-an-identifier-in-span", sig, f"{name!r} is not the text of a Name token inside {(sl, sc)}..{(el, ec)}"))
+        code_lines = {off_to_line(starts, off) for off, _, _ in toks if s_off <= off < e_off}
+        if not (1 <= value <= len(code_lines)):
+            out.append(("length-out-of-range", sig, f"{name}: length {value}, span has {len(code_lines)} code-bearing lines"))
+        if prev_start is not None and not (prev_start < (sl, sc)):
+            out.append(("not-in-source-order", sig, f"{name} at {(sl, sc)} after a measurement at {prev_start}"))
+        prev_start = (sl, sc)
+    return out
+
+
+def as_tuples(ms):
+    return [(m.unit_name, (m.start.line, m.start.column), (m.end.line, m.end.column), m.value) for m in ms]
